@@ -89,10 +89,10 @@ func (r *zstdByteStreamChunkReader) Read() ([]byte, error) {
 	buf := make([]byte, r.readChunkSize)
 	n, err := r.decoder.Read(buf)
 	if n > 0 {
-		if err != nil && err != io.EOF {
-			err = nil
-		}
-		return buf[:n], err
+		// ChunkReader.Read() returns either data or an error.
+		// Any error that accompanies data, including io.EOF,
+		// is reported again by the next call to the decoder.
+		return buf[:n], nil
 	}
 	return nil, err
 }
